@@ -78,6 +78,7 @@ type Interp struct {
 	tags        map[string]string
 	Deadline    time.Time
 	MaxDecisions int
+	refine      map[string][2]*big.Int // path-local interval refinements by term key
 }
 
 type HarnessCfg struct {
@@ -126,7 +127,139 @@ func (in *Interp) assume(c *Term) {
 		}
 		return
 	}
+	in.addPC(c)
+}
+
+// addPC appends a conjunct to the path condition and records the interval
+// facts it implies (x < c, c <= x, x == c ...) for later overflow reasoning.
+func (in *Interp) addPC(c *Term) {
 	in.pc = append(in.pc, c)
+	in.learn(c, 0)
+}
+
+func (in *Interp) learn(c *Term, depth int) {
+	if depth > 3 {
+		return
+	}
+	switch c.op {
+	case OAnd:
+		for _, a := range c.args {
+			in.learn(a, depth+1)
+		}
+	case OLt, OLe:
+		a, b := c.args[0], c.args[1]
+		if a.sort != SInt {
+			return
+		}
+		off := int64(0)
+		if c.op == OLt {
+			off = 1
+		}
+		if bl, bh := in.ival(b); bh != nil {
+			// a <= bh - off
+			in.narrow(a, nil, new(big.Int).Sub(bh, big.NewInt(off)))
+			_ = bl
+		}
+		if al, _ := in.ival(a); al != nil {
+			in.narrow(b, new(big.Int).Add(al, big.NewInt(off)), nil)
+		}
+	case OEq:
+		a, b := c.args[0], c.args[1]
+		if a.sort != SInt {
+			return
+		}
+		if v, ok := b.IntVal(); ok {
+			in.narrow(a, v, v)
+		} else if v, ok := a.IntVal(); ok {
+			in.narrow(b, v, v)
+		}
+	case ONot:
+		x := c.args[0]
+		if x.op == OLt && x.args[0].sort == SInt {
+			in.learn(Le(x.args[1], x.args[0]), depth+1)
+		} else if x.op == OLe && x.args[0].sort == SInt {
+			in.learn(Lt(x.args[1], x.args[0]), depth+1)
+		}
+	}
+}
+
+func (in *Interp) narrow(t *Term, lo, hi *big.Int) {
+	if t.op == OConst {
+		return
+	}
+	// x + c  =>  refine x
+	if t.op == OAdd {
+		if c, ok := t.args[1].IntVal(); ok {
+			var l2, h2 *big.Int
+			if lo != nil {
+				l2 = new(big.Int).Sub(lo, c)
+			}
+			if hi != nil {
+				h2 = new(big.Int).Sub(hi, c)
+			}
+			in.narrow(t.args[0], l2, h2)
+		}
+	}
+	cur, ok := in.refine[t.key]
+	if !ok {
+		cur = [2]*big.Int{t.lo, t.hi}
+	}
+	if lo != nil && (cur[0] == nil || lo.Cmp(cur[0]) > 0) {
+		cur[0] = lo
+	}
+	if hi != nil && (cur[1] == nil || hi.Cmp(cur[1]) < 0) {
+		cur[1] = hi
+	}
+	in.refine[t.key] = cur
+}
+
+// ival returns the best known interval of an Int term on this path.
+func (in *Interp) ival(t *Term) (*big.Int, *big.Int) {
+	lo, hi := t.lo, t.hi
+	if r, ok := in.refine[t.key]; ok {
+		if r[0] != nil && (lo == nil || r[0].Cmp(lo) > 0) {
+			lo = r[0]
+		}
+		if r[1] != nil && (hi == nil || r[1].Cmp(hi) < 0) {
+			hi = r[1]
+		}
+	}
+	switch t.op {
+	case OAdd:
+		al, ah := in.ival(t.args[0])
+		bl, bh := in.ival(t.args[1])
+		if l := addB(al, bl); l != nil && (lo == nil || l.Cmp(lo) > 0) {
+			lo = l
+		}
+		if h := addB(ah, bh); h != nil && (hi == nil || h.Cmp(hi) < 0) {
+			hi = h
+		}
+	case OSub:
+		al, ah := in.ival(t.args[0])
+		bl, bh := in.ival(t.args[1])
+		if l := subB(al, bh); l != nil && (lo == nil || l.Cmp(lo) > 0) {
+			lo = l
+		}
+		if h := subB(ah, bl); h != nil && (hi == nil || h.Cmp(hi) < 0) {
+			hi = h
+		}
+	}
+	return lo, hi
+}
+
+// wrap reduces t to a machine integer, skipping the reduction when the
+// path-local interval shows it cannot overflow.
+func (in *Interp) wrap(t *Term, bits int, signed bool) *Term {
+	if t.op != OConst {
+		lo, hi := in.ival(t)
+		if lo != nil && hi != nil {
+			tl, th := typeRange(bits, signed)
+			if lo.Cmp(tl) >= 0 && hi.Cmp(th) <= 0 {
+				return t
+			}
+		}
+	}
+	return Wrap(t, bits, signed)
 }
 
 func (in *Interp) query(extra ...*Term) (Result, map[string]*Term) {
@@ -168,7 +301,7 @@ func (in *Interp) decide(kind string, alts []*Term) int {
 	}
 	if nlive == 1 {
 		// exhaustive: the only non-false alternative holds
-		in.pc = append(in.pc, alts[live])
+		in.addPC(alts[live])
 		return live
 	}
 	if in.pos < len(in.prefix) {
@@ -178,7 +311,7 @@ func (in *Interp) decide(kind string, alts []*Term) int {
 		if pick >= len(alts) {
 			in.end("infeasible", "replay mismatch")
 		}
-		in.pc = append(in.pc, alts[pick])
+		in.addPC(alts[pick])
 		return pick
 	}
 	in.checkDecisionCap()
@@ -205,7 +338,7 @@ func (in *Interp) decide(kind string, alts []*Term) int {
 	in.prefix = append(in.prefix, first)
 	in.pos++
 	in.Trace = append(in.Trace, Decision{kind, len(alts), first})
-	in.pc = append(in.pc, alts[first])
+	in.addPC(alts[first])
 	return first
 }
 
@@ -1157,11 +1290,11 @@ func (in *Interp) intBinop(op token.Token, xt types.Type, x, y *Term, rt types.T
 	}
 	switch op {
 	case token.ADD:
-		return Wrap(Add(x, y), bits, signed)
+		return in.wrap(Add(x, y), bits, signed)
 	case token.SUB:
-		return Wrap(Sub(x, y), bits, signed)
+		return in.wrap(Sub(x, y), bits, signed)
 	case token.MUL:
-		return Wrap(Mul(x, y), bits, signed)
+		return in.wrap(Mul(x, y), bits, signed)
 	case token.QUO, token.REM:
 		if in.branch(Eq(y, IntC(0))) {
 			in.goPanic("runtime error: integer divide by zero")
